@@ -344,7 +344,8 @@ impl<Y: Sys> Visitor<Y> for ValidateMerge {
                         sink.fail(h, "false-merge-reject", a.0 | b.0, || format!("correct use, a = {}; b = {}: validate_merge = Err({})", h.derivation(a.0, a.1), h.derivation(b.0, b.1), e));
                     }
                 } else if spent && ab.is_ok() {
-                    sink.fail(h, "missed-double-spend", a.0 | b.0, || format!("misuse, a = {} ({:?}); b = {} ({:?}): a dot witnesses different elements but validate_merge = Ok", h.derivation(a.0, a.1), sa, h.derivation(b.0, b.1), sb));
+                    let kind = format!("missed-double-spend{}", Y::double_spent_site(sa, sb));
+                    sink.fail(h, &kind, a.0 | b.0, || format!("misuse, a = {} ({:?}); b = {} ({:?}): a dot witnesses different elements but validate_merge = Ok", h.derivation(a.0, a.1), sa, h.derivation(b.0, b.1), sb));
                 } else if !spent && ab.is_err() {
                     sink.fail(h, "false-merge-reject", a.0 | b.0, || format!("a = {} ({:?}); b = {} ({:?}): no dot witnesses different elements but validate_merge = {:?}", h.derivation(a.0, a.1), sa, h.derivation(b.0, b.1), sb, ab));
                 }
